@@ -13,6 +13,10 @@
    fastpasta/src/analyze/validators/its/status_word/util.rs
    fastpasta/src/analyze/validators/its/cdp_running/cdp_tracker.rs
    fastpasta/src/analyze/validators/its/cdp_running/rdh_validator.rs
+   fastpasta/src/analyze/validators/its/status_word.rs
+   fastpasta/src/analyze/validators/its/status_word/ihw.rs
+   fastpasta/src/analyze/validators/its/status_word/tdt.rs
+   fastpasta/src/analyze/validators/its/status_word/ddw.rs
 -/
 import FastPasta.Spec.RsPrelude
 import FastPasta.Spec.WordsSrcGen
@@ -42,6 +46,8 @@ structure CdpTracker where
   deriving DecidableEq, Repr, Inhabited
 structure ItsRdhValidator where
   f_rdh : (Option SrcRdh.RdhCru)
+  deriving DecidableEq, Repr, Inhabited
+structure StatusWordSanityChecker where
   deriving DecidableEq, Repr, Inhabited
 def CdpTracker.new (rdh : SrcRdh.RdhCru) (rdh_mem_pos : Nat) : CdpTracker :=
   { f_payload_mem_pos := ((rdh_mem_pos + 64) % 2^64), f_gbt_word_counter := 0, f_gbt_word_padding_size_bytes := (if ((SrcRdh.RdhCru.data_format (rdh)) == 0) then 6 else 0), f_is_start_of_data := true : CdpTracker }
@@ -129,6 +135,36 @@ def ItsRdhValidator.check_at_ddw0 (self_ : ItsRdhValidator) : (Rs.Res Unit) :=
 
 def ItsRdhValidator.check_at_initial_ihw (self_ : ItsRdhValidator) : (Rs.Res Unit) :=
   (let errors := Rs.Str.empty; (let errors_2 := (if ((SrcRdh.RdhCru.stop_bit ((Rs.unwrapD self_.f_rdh))) != 0) then (let errors_2 := (errors.app (Rs.Str.lit true [12])); errors_2) else errors); (if (!errors_2.nonEmpty) then (Rs.Res.ok ()) else (Rs.Res.err errors_2))))
+
+def StatusWordSanityChecker.check_ihw (ihw : SrcWords.Ihw) : (Rs.Res Unit) :=
+  (SrcWords.IhwValidator.sanity_check (ihw))
+
+def StatusWordContainer.sanity_check_ihw (self_ : StatusWordContainer) (ihw : SrcWords.Ihw) : (Rs.Res Unit) :=
+  (StatusWordSanityChecker.check_ihw (ihw))
+
+def TdhValidator.sanity_check (tdh : SrcWords.Tdh) : (Rs.Res Unit) :=
+  (let err_str := Rs.Str.empty; (if ((SrcWords.Tdh.id (tdh)) != SrcWords.Tdh.ID) then (let err_str_2 := (err_str.app (Rs.Str.lit true [])); (Rs.Res.err err_str_2)) else (let err_str_2 := (if (!(SrcWords.Tdh.is_reserved_0 (tdh))) then (let err_str_2 := (err_str.app (Rs.Str.lit true [])); err_str_2) else err_str); (let err_str := (if (((SrcWords.Tdh.trigger_type (tdh)) == 0) && ((SrcWords.Tdh.internal_trigger (tdh)) == 0)) then (let err_str := (err_str_2.app (Rs.Str.lit true [])); err_str) else err_str_2); (if (!err_str.nonEmpty) then (Rs.Res.ok ()) else (Rs.Res.err err_str))))))
+
+def StatusWordSanityChecker.check_tdh (tdh : SrcWords.Tdh) : (Rs.Res Unit) :=
+  (TdhValidator.sanity_check (tdh))
+
+def StatusWordContainer.sanity_check_tdh (self_ : StatusWordContainer) (tdh : SrcWords.Tdh) : (Rs.Res Unit) :=
+  (StatusWordSanityChecker.check_tdh (tdh))
+
+def StatusWordSanityChecker.check_tdt (tdt : SrcWords.Tdt) : (Rs.Res Unit) :=
+  (SrcWords.TdtValidator.sanity_check (tdt))
+
+def StatusWordContainer.sanity_check_tdt (self_ : StatusWordContainer) (tdt : SrcWords.Tdt) : (Rs.Res Unit) :=
+  (StatusWordSanityChecker.check_tdt (tdt))
+
+def StatusWordSanityChecker.check_ddw0 (ddw0 : SrcWords.Ddw0) : (Rs.Res Unit) :=
+  (SrcWords.Ddw0Validator.sanity_check (ddw0))
+
+def StatusWordContainer.sanity_check_ddw0 (self_ : StatusWordContainer) (ddw0 : SrcWords.Ddw0) : (Rs.Res Unit) :=
+  (StatusWordSanityChecker.check_ddw0 (ddw0))
+
+def ItsRdhValidator.rdh (self_ : ItsRdhValidator) : SrcRdh.RdhCru :=
+  (Rs.unwrapD self_.f_rdh)
 
 /-! kernel-checked: every literal mask was split into contiguous runs correctly -/
 example : (Rs.mask 0 12) = 4095 := by decide
